@@ -51,16 +51,38 @@ def oracle(ctx, seeds=None):
             B = 0.0
         data = [A + B * msh.xc]
         disc = impl.modeldisc.fvm(impl.convection.model(1.0), msh, num, bcL={'type': 'dirichlet', 'prim': [0.0]}, bcR={'type': 'dirichlet', 'prim': [0.0]})
+        # other fields reconstructed in the same call (systems): each keeps its own profile
+        nf = int(rng.integers(0, 3))
+        others = [(float(rng.normal() * 3), 0.0 if B == 0.0 else float(rng.normal() * 3)) for _ in range(nf)]
+        alldata = [A_ + B_ * msh.xc for (A_, B_) in others] + data
         def run():
-            disc.pdata = data
+            disc.neq = len(alldata)
+            disc.pdata = alldata
             disc.calc_grad(); disc.calc_bc_grad()
-            return num.interp_face(msh, data, disc.grad)
+            Ls, Rs = num.interp_face(msh, alldata, disc.grad)
+            return [Ls[-1]], [Rs[-1]], [np.array(x, dtype=float).copy() for x in Ls], [np.array(x, dtype=float).copy() for x in Rs]
         ok, out = impl.guarded(run)
         res.case((sch[0], sch[1] if len(sch) > 1 and isinstance(sch[1], str) else '', md['kind'], B == 0.0, min(n, 4)))
         rp = dict(mesh=md, scheme=sch, A=A, B=B)
         if not ok:
             res.fail('%s:raised' % sch[0], out, rp); continue
         L, R = np.asarray(out[0][0]), np.asarray(out[1][0])
+        # the other fields of the same call: interior faces carry their own linear profile (same stencil rule as below)
+        mixed = False
+        for j_, (A_, B_) in enumerate(others):
+            ex_ = A_ + B_ * msh.xf
+            Lj, Rj = out[2][j_], out[3][j_]
+            sc_ = abs(A_) + abs(B_) * float(np.max(np.abs(msh.xf))) + abs(A) + abs(B) * float(np.max(np.abs(msh.xf))) + 1e-300
+            tl_ = 1e-11 * sc_ * max(1.0, float(np.max(np.diff(msh.xf)) / np.min(np.diff(msh.xf)))) + (abs(B_) * 1e-20 / max(B_ * B_, 1e-300) * float(np.max(np.diff(msh.xf))) if sch[0] == 'muscl' and sch[1] in ('vanalbada', 'vanleer') else 0.0)
+            if sch[0] == 'extrapol1' or B_ == 0.0:
+                okj = n < 1 or (np.max(np.abs(Lj[1:] - (A_ + B_ * msh.xc))) <= 1e-12 * sc_ and np.max(np.abs(Rj[:-1] - (A_ + B_ * msh.xc))) <= 1e-12 * sc_)
+            else:
+                okj = all(abs(Lj[f_] - ex_[f_]) <= tl_ for f_ in range(2, n)) and all(abs(Rj[f_] - ex_[f_]) <= tl_ for f_ in range(1, n - 1))
+            if not okj:
+                mixed = True
+        if mixed:
+            res.fail('%s:multi-field' % sch[0], "with %d fields reconstructed in one call a field does not get its own constant/linear profile at the faces (%s)" % (nf + 1, sch), dict(mesh=md, scheme=sch, A=A, B=B, others=others))
+            continue
         sc = abs(A) + abs(B) * float(np.max(np.abs(msh.xf))) + 1e-300
         exact = A + B * msh.xf
         if sch[0] == 'extrapol1' or B == 0.0:
